@@ -132,6 +132,8 @@ impl Response {
                     self.headers.set().ContentLength(None);
                 }
                 if !/* not */matches!(self.content, Content::None) {
+                    /* the dropped content can be a stream: its `Transfer-Encoding` goes with it */
+                    self.forget_stream();
                     self.content = Content::None;
                 }
             }
